@@ -629,6 +629,41 @@ func checkIdentityMerge(c *Ctx, eff *effSummaries) {
 			okGuard = true
 		}
 	}
+	// the ref is moved to the commit of the version appended last: every append adds exactly one version X
+	// and the hash that reaches UpdateRef is X.commitHash of the same X
+	for _, s := range sites {
+		if !s.Direct || !strings.HasSuffix(s.Call.Name, ".UpdateRef") {
+			continue
+		}
+		bases := map[ssa.Value]bool{}
+		okHash := true
+		for _, o := range origins(s.Call.Args()[1]) {
+			switch {
+			case o.Kind == "const":
+			case o.Kind == "field" && o.Name == "commitHash":
+				bases[o.Val] = true
+			default:
+				okHash = false
+			}
+		}
+		okApp := true
+		nApp := 0
+		for _, cl := range Calls(fn) {
+			bi, isB := cl.Instr.Common().Value.(*ssa.Builtin)
+			if !isB || bi.Name() != "append" {
+				continue
+			}
+			if _, fld, isF := loadOfField(cl.Instr.Common().Args[0]); !isF || fld != "versions" {
+				continue
+			}
+			nApp++
+			ops := variadicOperands(cl.Instr.Common().Args[1])
+			if len(ops) != 1 || !bases[ops[0]] {
+				okApp = false
+			}
+		}
+		c.Check(okHash && okApp && nApp > 0, "R9.2", "identity.Identity.Merge:ref-at-last-appended-version", w.InstrPos(s.Call.Instr), "each append adds one version and the ref target is that version's commit", "the versions appended in memory and the commit the ref is moved to do not correspond one to one: the stored identity would differ from the merged one")
+	}
 	c.Check(okGuard, "R9.2", "identity.Identity.Merge:ref-moves-only-after-append", pos, "the UpdateRef is guarded by a flag set only where versions were appended", "the ref update is not guarded by 'a version was appended'")
 }
 
